@@ -4,9 +4,12 @@
   no machine arithmetic, no pointer walks, no search loop.
 -/
 import StVerif.Base
+import StVerif.Spec.Search
 
 namespace StVerif.Spec.Slice
 open StVerif
+open StVerif.Search (CaseMode)
+open StVerif.Spec.Search (occursAt)
 
 /-- the count value that means "to the end" (`ST_AUTO_SIZE`) -/
 def autoSize : Nat := 2^64 - 1
@@ -33,45 +36,38 @@ def trimRight (s cset : List Nat) : List Nat := (s.reverse.dropWhile (cset.conta
 
 def trim (s cset : List Nat) : List Nat := trimRight (trimLeft s cset) cset
 
-/-- case folding of the insensitive mode: ASCII letters only -/
-def foldAscii (c : Nat) : Nat := if 65 ≤ c ∧ c ≤ 90 then c + 32 else c
+/-! "The separator occurs in `s` at offset `i`" is `Spec.Search.occursAt` (C07's notion: the window
+    of `sep.length` bytes at `i` lies inside `s` and equals `sep`, ASCII letters folded on both sides
+    in the insensitive mode).  An empty separator occurs nowhere. -/
 
-/-- two bytes are the same character under the case mode (`ci = true`: ASCII-folded) -/
-def sameChar (ci : Bool) (a b : Nat) : Bool := a == b || (ci && foldAscii a == foldAscii b)
+/-- offset of the first occurrence of a non-empty separator -/
+def firstOcc (cs : CaseMode) (s sep : List Nat) : Option Nat :=
+  if sep = [] then none else (List.range (s.length + 1)).find? (fun i => occursAt cs s sep i)
 
-/-- the (non-empty) separator occurs in `s` at offset `i` -/
-def occursAt (ci : Bool) (s sep : List Nat) (i : Nat) : Bool :=
-  !sep.isEmpty && decide (i + sep.length ≤ s.length) &&
-    (List.range sep.length).all fun j => sameChar ci (s.getD (i + j) 0) (sep.getD j 0)
-
-/-- offset of the first occurrence -/
-def firstOcc (ci : Bool) (s sep : List Nat) : Option Nat :=
-  (List.range (s.length + 1)).find? (occursAt ci s sep)
-
-/-- offset of the last occurrence -/
-def lastOcc (ci : Bool) (s sep : List Nat) : Option Nat :=
-  (List.range (s.length + 1)).reverse.find? (occursAt ci s sep)
+/-- offset of the last occurrence of a non-empty separator -/
+def lastOcc (cs : CaseMode) (s sep : List Nat) : Option Nat :=
+  if sep = [] then none else (List.range (s.length + 1)).reverse.find? (fun i => occursAt cs s sep i)
 
 /-- the separator occurs somewhere -/
-def occurs (ci : Bool) (s sep : List Nat) : Bool := (firstOcc ci s sep).isSome
+def occurs (cs : CaseMode) (s sep : List Nat) : Bool := (firstOcc cs s sep).isSome
 
-def beforeFirst (ci : Bool) (s sep : List Nat) : List Nat :=
-  match firstOcc ci s sep with
+def beforeFirst (cs : CaseMode) (s sep : List Nat) : List Nat :=
+  match firstOcc cs s sep with
   | some i => s.take i
   | none => s
 
-def afterFirst (ci : Bool) (s sep : List Nat) : List Nat :=
-  match firstOcc ci s sep with
+def afterFirst (cs : CaseMode) (s sep : List Nat) : List Nat :=
+  match firstOcc cs s sep with
   | some i => s.drop (i + sep.length)
   | none => []
 
-def beforeLast (ci : Bool) (s sep : List Nat) : List Nat :=
-  match lastOcc ci s sep with
+def beforeLast (cs : CaseMode) (s sep : List Nat) : List Nat :=
+  match lastOcc cs s sep with
   | some i => s.take i
   | none => []
 
-def afterLast (ci : Bool) (s sep : List Nat) : List Nat :=
-  match lastOcc ci s sep with
+def afterLast (cs : CaseMode) (s sep : List Nat) : List Nat :=
+  match lastOcc cs s sep with
   | some i => s.drop (i + sep.length)
   | none => s
 
